@@ -13,6 +13,7 @@ import contextlib
 import gc
 import io
 import logging
+import sys
 import warnings
 
 import onnx_ir as ir
@@ -204,6 +205,9 @@ def gen_case(run_seed: int, tier: str, index: int = 0) -> dict:
     # the interpreter treats warnings as errors (python -W error, the usual test-suite setting) in part of the runs;
     # rarely the first journal also records a bulk of several thousand cheap operations before the history proper
     knobs = {"warnings_error": kr.random() < 0.25, "bulk": kr.choice([3000, 10000, 12000]) if kr.random() < 0.012 else 0}
+    # sys.tracebacklimit as command-line tools set it to hide tracebacks (it also limits traceback.extract_stack)
+    tr = Streams(run_seed).rng("tracebacklimit")
+    knobs["tracebacklimit"] = tr.choice([0, 1, 2, 3, 5]) if tr.random() < 0.2 else None
     return {"property": PROPERTY, "run_seed": run_seed, "ops": op_list, "plan": plan, "consumer": consumer, "hook_raises_at": r.choice([0, 1, 3, 8, 20]), **knobs}
 
 
@@ -407,12 +411,23 @@ def run_case(case: dict) -> dict:
         res["error"] = f"classes are not pristine at the start of the run ({bad}): leaked from a previous run"
         return res
     consumer = case.get("consumer", 0)
-    with warnings.catch_warnings():
-        if case.get("warnings_error"):
-            warnings.simplefilter("error")
-            stats["cfg_warnings_as_errors"] = 1
-        plain = run_plain(op_list)
-        journaled, viol, journals = run_journaled(op_list, plan, stats, consumer, case.get("hook_raises_at", 0), case.get("bulk", 0))
+    had_limit = hasattr(sys, "tracebacklimit")
+    old_limit = getattr(sys, "tracebacklimit", None)
+    try:
+        if case.get("tracebacklimit") is not None:
+            sys.tracebacklimit = case["tracebacklimit"]
+            stats["cfg_tracebacklimit_set"] = 1
+        with warnings.catch_warnings():
+            if case.get("warnings_error"):
+                warnings.simplefilter("error")
+                stats["cfg_warnings_as_errors"] = 1
+            plain = run_plain(op_list)
+            journaled, viol, journals = run_journaled(op_list, plan, stats, consumer, case.get("hook_raises_at", 0), case.get("bulk", 0))
+    finally:
+        if had_limit:
+            sys.tracebacklimit = old_limit
+        elif hasattr(sys, "tracebacklimit"):
+            del sys.tracebacklimit
     hook_op = stats.pop("_hook_fault_op", None)
     if consumer == 2 and viol is None:
         sink = io.StringIO()
